@@ -7,6 +7,9 @@ be located raises Lost (the check then ends UNDECIDED, exit 2 -- never a violati
 import re
 
 
+BODY_MARK = '/*BODY*/'
+
+
 class Lost(Exception):
     """An anchor of the extraction / injection rules no longer applies to the source."""
 
@@ -155,6 +158,17 @@ def fn_span(s, m, name, start, end):
     mm = ms[0]
     ls = s.rfind('\n', 0, mm.start()) + 1
     bo = next_code_char(s, m, mm.end(), '{')
+    # a spliced contract may contain braces; the injector marks the real body brace
+    nxt = re.compile(r'^[ \t]*(?:pub(?:\([a-z]+\))? )?(?:const )?fn ', re.M).search(s, mm.end())
+    lim = nxt.start() if nxt else len(s)
+    mk = s.find(BODY_MARK, mm.end(), lim)
+    if mk >= 0:
+        bo = mk + len(BODY_MARK)
+        assert s[bo] in '{;', s[bo:bo + 20]
+        if s[bo] == ';':
+            return attr_start(s, ls), ls, bo, bo
+        bc = match_close(s, m, bo)
+        return attr_start(s, ls), ls, bo, bc
     try:
         semi = next_code_char(s, m, mm.end(), ';', bo)
     except Lost:
